@@ -228,3 +228,20 @@ def run(ctx):
         "add_grid_generators on an empty grid (KF-C05-11), bounded_affine_image on an empty receiver (C02), "
         "BD_Shape/Octagonal_Shape limited extrapolations with constraints without variables (out-of-bounds read in get_limiting_shape)",
     ]
+
+
+def replay(ctx, path):
+    """bin/check C13 --replay <file>: regenerate the recorded history from its seed and index on the
+    current tree (harness + driver rebuilt) and judge it again; 1 (with a VIOLATION line) if it still fails."""
+    rp = json.load(open(path))
+    print("property=%s what=%s" % (rp.get("property"), str(rp.get("what"))[:300]))
+    print("harness_args: %s" % rp.get("harness_args"))
+    if not rp.get("harness_args"):
+        print(json.dumps(rp, indent=1)[:3000])
+        return 0
+    ctx.replay = path
+    run(ctx)
+    for k in ctx.known_hits:
+        pass
+    print("replayed: %d violation(s), %d known finding(s)" % (len(ctx.violations), len(ctx.known_hits)))
+    return 1 if ctx.violations else 0
